@@ -11,13 +11,16 @@ type Pool struct {
 	ctx    context.Context
 	cancel context.CancelFunc
 
-	runM      sync.Mutex
+	// lifeM serialises Run and Stop; running is the state they toggle.
+	lifeM     sync.Mutex
+	running   bool
 	lazySendM sync.Mutex
 	listM     sync.Mutex
 
-	// stopM orders Send's registration in sendWg against Stop waiting for it:
-	// once stopped is set no Send registers any more, so the wait group is never
-	// added to while (or after) Stop waits on it.
+	// stopM guards ctx, cancel, ch and stopped. It orders Send's registration in
+	// sendWg against Stop waiting for it: once stopped is set no Send registers
+	// any more, so the wait group is never added to while (or after) Stop waits
+	// on it; a pool that has not been run yet counts as stopped.
 	stopM   sync.RWMutex
 	stopped bool
 
@@ -33,6 +36,7 @@ type Pool struct {
 
 func New(options Options) *Pool {
 	return &Pool{
+		stopped: true,
 		opts: Options{
 			NumWorkers:   max(options.NumWorkers, minNumWorkers),
 			SendDuration: max(options.SendDuration, minSendDuration),
